@@ -13,6 +13,7 @@ CONSTANTS
   PerturbMode = "pure"
   HashMode = "ordered"
   SFSMode = "copies"
+  VectorMode = "copies"
   KernelMode = "stateless"
   MaxTable = 100000
 SPECIFICATION TSpec
